@@ -155,6 +155,8 @@ def run(repo, rep):
     rep.rule('C07.D4', 'delivery to the user is dominated by "not receiving" and followed by a decoder reset', 2)
     rep.rule('C07.D5', 'MESSAGE_TYPE maps each of the 23 command field codes to the class with that command_field; the '
              'no-data-set flag is tag (0000,0800) compared with 0101H', 24)
+    rep.rule('C07.D7', 'the decoder (reassembly state) is created only when none is in use and discarded only after the '
+             'message was delivered or reassembly failed -- nothing else resets it between fragments', 1)
     rep.rule('C07.D6', 'file reception: callback gets the accepted context of the PDV\'s context id; stream rewound to the '
              'returned position; early fragments flushed in order; meta header written with the negotiated syntax', 3)
 
@@ -254,7 +256,8 @@ def run(repo, rep):
     n_strip = 0
     ctrl = 1
     for n in ast.walk(loop):
-        if isinstance(n, ast.Call) and isinstance(n.func, ast.Attribute) and n.func.attr in ('append', 'write'):
+        if isinstance(n, ast.Call) and not (isinstance(n.func, ast.Attribute) and n.func.attr == 'indexbytes') \
+                and norm(n.func) not in ('six.indexbytes', 'len'):
             a = n.args[0] if n.args else None
             if a is not None and 'data_value' in norm(a):
                 n_strip += 1
@@ -262,11 +265,11 @@ def run(repo, rep):
                     isinstance(a.slice.lower, ast.Constant) and a.slice.lower.value == ctrl and norm(a.value) == '%s.data_value' % item
                 if not ok:
                     p2.append('%s keeps %s, not the value without its one control byte' % (norm(n.func), norm(a)))
-            if n.func.attr == 'append' and not (attr_chain(n.func.value) or ('',))[0] == 'self':
+            if isinstance(n.func, ast.Attribute) and n.func.attr == 'append' and not (attr_chain(n.func.value) or ('',))[0] == 'self':
                 p2.append('fragments appended to a non-decoder list %s' % norm(n.func.value))
         if isinstance(n, ast.Call) and isinstance(n.func, ast.Attribute) and n.func.attr in ('insert', 'appendleft'):
             p2.append('fragments are not kept in arrival order (%s)' % norm(n.func))
-    if n_strip < 3:
+    if n_strip < 2:
         p2.append('only %d fragment-store sites found' % n_strip)
     joins = [n for n in ast.walk(proc.node) if isinstance(n, ast.Call) and isinstance(n.func, ast.Attribute) and n.func.attr == 'join']
     for j in joins:
@@ -314,6 +317,46 @@ def run(repo, rep):
             p4.append('no delivery of a reassembled message found')
         rep.check(not p4, 'C07.D4', 'fsm:StateMachine.%s:delivery' % meth, f.loc(),
                   'delivery guarded by completion and followed by reset (%d paths)' % n_put, '; '.join(sorted(set(p4))))
+
+    # ---------------------------------------------------------------- D7: who may discard the decoder
+    p7 = []
+    n_writes = 0
+    for cls_ in repo.all_classes():
+        for fn in list(cls_.methods.values()) + list(cls_.setters.values()):
+            if not any(isinstance(n, (ast.Assign, ast.AugAssign, ast.Delete)) and 'dimse_decoder' in norm(n) for n in ast.walk(fn.node)):
+                continue
+            rep.analysed(fn)
+            c7 = SymClient(repo, fn, event_of=lambda *a: None, hierarchy=hier,
+                           store_event=lambda t: t.endswith('.dimse_decoder'))
+            c7.run(empty_state())
+            for e, s in c7.log:
+                if e.kind != 'store':
+                    continue
+                n_writes += 1
+                val = e.args[0]
+                if fn.name == '__init__' and val == 'None':
+                    continue
+                if val.startswith('NEW_DIMSEDecoder'):
+                    if not any(cn.endswith('.dimse_decoder is None') and cn.startswith('+') or
+                               cn.endswith('.dimse_decoder') and cn.startswith('-') for cn in e.conds):
+                        p7.append('%s creates a new decoder at line %d without testing that none is in use: fragments already '
+                                  'received are lost' % (fn.qualname, e.line))
+                    continue
+                if val == 'None':
+                    done = any(cn.endswith('.receiving') and cn.startswith('-') or cn.endswith('.receiving is False') and cn.startswith('+')
+                               or cn.startswith('+not ') and cn.endswith('.receiving') for cn in e.conds)
+                    failed = any(cn.startswith('exc:') for cn in e.conds)
+                    if not (done or failed):
+                        p7.append('%s discards the decoder at line %d on a path where the message is neither complete nor '
+                                  'failed [%s]: a message whose fragments span this point can never be reassembled'
+                                  % (fn.qualname, e.line, ' '.join(e.conds) or 'unconditionally'))
+                    continue
+                p7.append('%s assigns %s to dimse_decoder at line %d' % (fn.qualname, val, e.line))
+    if n_writes < 3:
+        p7.append('only %d writes of dimse_decoder found' % n_writes)
+    rep.check(not p7, 'C07.D7', 'fsm:StateMachine:decoder-lifetime', model.sm.loc(),
+              'the reassembly state is created only when absent and discarded only after delivery or failure (%d writes)' % n_writes,
+              '; '.join(sorted(set(p7))))
 
     # ---------------------------------------------------------------- D5
     dm = repo.module('dimsemessages')
@@ -368,6 +411,8 @@ def run(repo, rep):
         last = callee.rsplit('.', 1)[-1]
         if last in ('get_file_cb', 'seek', 'writelines', 'write', 'close'):
             return last
+        if last == 'append' and callee.endswith('_encoded_data_set.append'):
+            return 'keep'
         return None
     c = SymClient(repo, proc, event_of=ev6, hierarchy=hier)
     c.run(empty_state())
@@ -386,6 +431,22 @@ def run(repo, rep):
     wl = [(e, s) for e, s in c.log if e.kind == 'writelines']
     if not any(e.args == ('self._encoded_data_set',) for e, s in wl):
         p6.append('data fragments received before the file exists are not flushed to it')
+    # the file is opened inside the loop (on the last command fragment), so whether a data fragment goes to the
+    # file or to memory must be decided at that fragment, not before the loop
+    from ..sym import loop_body_outcomes
+    entry_conds = set()
+    for e_, s_ in c.log:
+        if e_.kind == 'loop' and e_.line == loop.lineno:
+            entry_conds |= set(s_.conds)
+    lo = loop_body_outcomes(c, loop)
+    for st_ in list(lo.fall) + list(lo.cont) + list(lo.brk):
+        stores = [e_ for e_ in st_.trail if e_.kind in ('write', 'keep') and e_.args and 'data_value[1:]' in e_.args[0]]
+        if not stores:
+            continue
+        decided = [cn for cn in stores[0].conds if '_dataset_fp' in cn and cn not in entry_conds]
+        if not decided:
+            p6.append('where a data fragment is kept (file or memory) is not decided at that fragment: a decision taken before '
+                      'the PDU\'s PDVs are processed is stale once the file is opened on the last command fragment of the same PDU')
     rep.check(not p6, 'C07.D6', 'fsm:DIMSEDecoder.process:file-reception', proc.loc(),
               'callback(context of PDV id, command set); early fragments flushed; rewound to returned start', '; '.join(sorted(set(p6))))
     ae = repo.cls('applicationentity', 'AEBase')
